@@ -550,18 +550,26 @@ type cell struct {
 }
 
 type modelOut struct {
-	sums    map[cell]float64 // exact expectation for sum-typed fields selected plain or with sum()
-	present map[cell]bool    // every cell the answer must have (all items)
+	// exact expectation of a cell: the aggregate (series/field/type.go: function and field type)
+	// of the values of every written point that feeds it; absent for order-ambiguous cells
+	exact   map[cell]float64
+	present map[cell]bool // every cell the answer must have
 	// first/last cells fed by >= 2 series or from >= 2 data families (the order in which the partial
 	// results of series / families are merged is not fixed by any document): candidate values
 	ambiguous map[cell][]float64
 	matching  []int // series with at least one point in the answer
 }
 
-// evalModel computes, from the written points only, which cells the answer has, the value of the
-// sum cells, and which first/last cells depend on an order no document fixes.
+type feed struct {
+	slot int64
+	v    float64
+}
+
+// evalModel computes, from the written points only, which cells the answer has, their values,
+// and which first/last cells depend on an order no document fixes. Each (series, storage slot) holds
+// one written value, so a cell's value is the aggregate of the values of the points it covers.
 func evalModel(d *dataset, q *querySpec) *modelOut {
-	out := &modelOut{sums: map[cell]float64{}, present: map[cell]bool{}, ambiguous: map[cell][]float64{}}
+	out := &modelOut{exact: map[cell]float64{}, present: map[cell]bool{}, ambiguous: map[cell][]float64{}}
 	if q.Metric < 0 {
 		return out
 	}
@@ -582,7 +590,9 @@ func evalModel(d *dataset, q *querySpec) *modelOut {
 			items = append(items, selItem{Field: f.Name})
 		}
 	}
-	contributors := map[cell]map[[2]int64]bool{} // (series, family) pairs feeding a first/last cell
+	contributors := map[cell]map[[2]int64]bool{} // (series, family) pairs feeding a cell
+	feeds := map[cell][]feed{}
+	aggs := map[cell]string{}
 	matched := map[int]bool{}
 	for _, b := range d.Batches {
 		for _, p := range b {
@@ -617,23 +627,42 @@ func evalModel(d *dataset, q *querySpec) *modelOut {
 				matched[p.Series] = true
 				c := cell{key, it.text(), ts}
 				out.present[c] = true
-				ft := md.Fields[fi].Type
-				if ft == tSum && (it.Func == "" || it.Func == "sum") {
-					out.sums[c] += v
+				aggs[c] = md.Fields[fi].Type.aggOf(it.Func)
+				feeds[c] = append(feeds[c], feed{slotStart, v})
+				if contributors[c] == nil {
+					contributors[c] = map[[2]int64]bool{}
 				}
-				if (ft == tLast && (it.Func == "" || it.Func == "last")) || (ft == tFirst && (it.Func == "" || it.Func == "first")) {
-					if contributors[c] == nil {
-						contributors[c] = map[[2]int64]bool{}
-					}
-					contributors[c][[2]int64{int64(p.Series), floorDiv(p.ts(), 3600_000)}] = true
-					out.ambiguous[c] = append(out.ambiguous[c], v)
-				}
+				contributors[c][[2]int64{int64(p.Series), floorDiv(p.ts(), 3600_000)}] = true
 			}
 		}
 	}
-	for c, s := range contributors {
-		if len(s) < 2 {
-			delete(out.ambiguous, c)
+	for c, fs := range feeds {
+		sort.Slice(fs, func(i, j int) bool { return fs[i].slot < fs[j].slot })
+		switch aggs[c] {
+		case "sum":
+			x := 0.0
+			for _, f := range fs {
+				x += f.v
+			}
+			out.exact[c] = x
+		case "min", "max":
+			x := fs[0].v
+			for _, f := range fs {
+				if (aggs[c] == "min" && f.v < x) || (aggs[c] == "max" && f.v > x) {
+					x = f.v
+				}
+			}
+			out.exact[c] = x
+		default: // first / last by time, when only one series of one family feeds the cell
+			if len(contributors[c]) >= 2 {
+				for _, f := range fs {
+					out.ambiguous[c] = append(out.ambiguous[c], f.v)
+				}
+			} else if aggs[c] == "last" {
+				out.exact[c] = fs[len(fs)-1].v
+			} else {
+				out.exact[c] = fs[0].v
+			}
 		}
 	}
 	for s := range matched {
